@@ -51,6 +51,10 @@ def body_lines(b):
                 v, rule = "[%s]" % p["vn"], ""
             elif vk == "enum":
                 v, rule = '"x"', " // {enum: %s}" % p["vn"]
+            elif vk == "opt":
+                v, rule = "1", " // {optional: true}"
+            elif vk == "note":
+                v, rule = '"v"', " // a note"
             elif vk == "nobj":
                 lines.append('  "%s": { // {allOf: "%s"}' % (p["key"], p["vn"]))
                 lines.append('    "nk": 1')
@@ -227,7 +231,7 @@ def render_method(o, depth, m, with_path):
         tags_line(o, d, m["tags"])
     render_pathdecl(o, d, m.get("pathdecl") or [])
     if m["query"]:
-        o.line(d, 'Query "q1=1"' if m["query"] == "example" else "Query", "Query")
+        o.line(d, 'Query "q1=1"' if m["query"] == "example" else ("Query noFormat" if m["query"] == "noformat" else "Query"), "Query")
         o.lines(d, body_lines(QRY))
     if m["req"]["form"] != "none":
         render_spec(o, d, "Request", "", m["req"], m["reqHeaders"], HDR)
@@ -414,7 +418,7 @@ def child_view(c):
     if tt == "object":
         kids = [[k.get("key", ""), k.get("inheritedFrom", "")] for k in (c.get("children") or [])]
     return {"key": c.get("key", ""), "tt": tt, "type": c.get("type", ""), "scalar": scalar,
-            "inh": c.get("inheritedFrom", ""), "kids": kids}
+            "inh": c.get("inheritedFrom", ""), "kids": kids, "optional": bool(c.get("optional", False)), "note": c.get("note", "")}
 
 
 def sv_content(notation, c):
